@@ -41,11 +41,15 @@ class BaseCheck:
         try:
             for case in list(cases) + list(self.search_cases()):
                 gen.use(case)            # meshes are handed to the implementation in the presentation the case records
-                if isinstance(case, dict) and case.get("kind") == "reuse":
-                    from . import reuse
-                    v = reuse.oracle(case)
-                else:
-                    v = self.oracle(case)
+                try:
+                    if isinstance(case, dict) and case.get("kind") == "reuse":
+                        from . import reuse
+                        v = reuse.oracle(case)
+                    else:
+                        v = self.oracle(case)
+                except Exception:  # noqa: BLE001  (a case attached to a broken tie may lack what the oracle needs: go on with the stream)
+                    self.search_errors = getattr(self, "search_errors", 0) + 1
+                    continue
                 if v is not None and not is_known(v):
                     return v
         finally:
